@@ -60,9 +60,15 @@ MERGE_VARIANTS = {
 MERGE_STRATS = {"quick": ("bT", "bF-tasks"), "thorough": ("bT", "bF-tasks", "bN", "b0.9")}
 # quick: dask's own choice (hash join through the default disk shuffle) only for this scenario -- the disk shuffle itself is C40's subject
 QUICK_DEFAULT_STRAT_VARIANTS = ("mixed",)
-ASOF_VARIANTS = {"quick": ("on", "index"), "thorough": ("on", "index", "by", "lon_rindex")}
+# *_hi: the right keys extend beyond the last left key, so that right divisions can coincide with the left's LAST division
+ASOF_VARIANTS = {"quick": ("on", "index", "index_hi"), "thorough": ("on", "on_hi", "index", "index_hi", "by", "lon_rindex")}
+# depth-2 merge programs: one input of the final merge is itself the output of a hash join / shuffle (step 1), so that dask
+# may skip re-shuffling it only if its recorded partitioning really co-locates the final join keys
+MCHAIN_STEP1 = {"quick": ("merge:k", "shuffle:k", "merge:k+k2"), "thorough": ("merge:k", "shuffle:k", "merge:k2", "shuffle:k2", "merge:k+k2", "shuffle:k+k2")}
+MCHAIN_ON2 = ("k", "k+k2")
+MCHAIN_HOWS = {"quick": ("inner", "outer"), "thorough": ("inner", "left", "right", "outer", "leftsemi")}
 CONCAT_VARIANTS = {
-    "quick": ("cols", "dtype", "series"),
+    "quick": ("cols", "series"),
     "thorough": ("same", "cols", "dtype", "series", "three", "str"),
 }
 
@@ -83,6 +89,8 @@ def RULE(tier):
         f"non-key columns, indicator) x how in {HOWS} x strategy in {MERGE_STRATS[tier]} (broadcast True/False/None/0.9, shuffle tasks/disk"
         f"{'; the default disk-shuffle hash join only for ' + str(QUICK_DEFAULT_STRAT_VARIANTS) if tier == 'quick' else ''}; join: {JOIN_STRATS}). "
         f"merge_asof: {ASOF_VARIANTS[tier]} x direction x allow_exact_matches x tolerance in (None, 2). "
+        f"chained merges: step 1 in {MCHAIN_STEP1[tier]} (hash join with a third frame / shuffle) applied to the left or the right input, "
+        f"then merge on {MCHAIN_ON2} x how {MCHAIN_HOWS[tier]} (hash join, tasks) over the 117 pairs of <= 2 partitions incl. empty ones / 3 non-empty. "
         f"concat: {CONCAT_VARIANTS[tier]} x axis 0/1 x join inner/outer x interleave_partitions x index layouts "
         "(disjoint ordered, overlapping, unsorted). Oracle: rows (values, dtypes, columns) equal pandas on the whole frames. "
         "non-trivial = at least one side has >= 2 partitions."
@@ -173,10 +181,25 @@ def merge_pair(variant, seed):
     return L, R, kw, ci
 
 
+def mchain_frames(seed):
+    """left, right (keys k, k2 with duplicates / unmatched combinations) and a third frame C with one row per (k, k2)
+    combination: a how='left' merge with C on k, on k2 or on [k, k2]... must keep every row, so C is unique on EACH of them"""
+    v = (np.arange(NL) + 10)[_perm(NL, seed, 1)]
+    w = (np.arange(NR) + 20)[_perm(NR, seed, 2)]
+    L = pd.DataFrame({"k": [1, 2, 2, 3, 5], "k2": [6, 7, 6, 7, 6], "v": v})
+    R = pd.DataFrame({"k": [2, 2, 3, 4], "k2": [6, 7, 7, 6], "w": w})
+    # unique in k and unique in k2 (so also unique in the pair); covers some, not all, keys of L and R
+    C = pd.DataFrame({"k": [1, 2, 3, 4, 5, 0, 8, 9], "k2": [6, 7, 1, 2, 3, 4, 5, 0], "c": np.arange(8) + 50})
+    return L, R, C
+
+
 def asof_pair(variant, seed):
     v = (np.arange(NL) + 10)[_perm(NL, seed, 1)]
     w = (np.arange(NR) + 20)[_perm(NR, seed, 2)]
     lt, rt = [1, 3, 3, 6, 9], [0, 1, 3, 7]  # right keys below / equal to the first left key, exact ties, gaps
+    if variant.endswith("_hi"):
+        rt = [3, 6, 9, 11]  # right keys up to and beyond the last left key (ties at 3, 6, 9)
+        variant = variant[:-3]
     if variant == "on":
         L = pd.DataFrame({"t": lt, "v": v})
         R = pd.DataFrame({"t": rt, "w": w})
@@ -250,6 +273,11 @@ def shards(tier):
     for var in ASOF_VARIANTS[tier]:
         for direction in ("backward", "forward", "nearest"):
             out.append(("asof", var, direction))
+    for s1 in MCHAIN_STEP1[tier]:
+        for side in ("left", "right"):
+            for on2 in MCHAIN_ON2:
+                for how in MCHAIN_HOWS[tier]:
+                    out.append(("mchain", s1, side, on2, how))
     for var in CONCAT_VARIANTS[tier]:
         for layout in CONCAT_LAYOUTS:
             for axis in (0, 1):
@@ -274,6 +302,12 @@ def cases_of(shard, tier):
                 for exact in (True, False):
                     for tol in (None, 2):
                         yield ("asof", var, direction, exact, tol, lp, rp)
+    elif kind == "mchain":
+        _, s1, side, on2, how = shard
+        # both tiers: the 117 pairs (<= 2 partitions incl. empty ones, or 3 non-empty); thorough widens steps and hows
+        for lp in _parts(NL, "quick"):
+            for rp in _parts(NR, "quick"):
+                yield ("mchain", s1, side, on2, how, lp, rp)
     elif kind == "concat":
         _, var, layout, axis = shard
         for lp in pl:
@@ -370,7 +404,7 @@ def known_class(case, failure):
             return "broadcast-other-side-on-index"
     if kind == "asof":
         lp, rp = case[-2], case[-1]
-        if failure in ("wrong-rows", "dask-raises:AssertionError", "dask-raises:ValueError") and (0 in lp or 0 in rp) and case[1] != "index":
+        if failure in ("wrong-rows", "dask-raises:AssertionError", "dask-raises:ValueError") and (0 in lp or 0 in rp) and not case[1].startswith("index"):
             return "empty-partition"
     return None
 
@@ -419,7 +453,7 @@ def run_case(case, ctx):
         L, R, kw = asof_pair(var, ctx.seed)
         op, detail_op = "asof", var
         ordered = True
-        check_index = var != "on" and var != "by"
+        check_index = not (var.startswith("on") or var == "by")
         kw = dict(kw, direction=direction, allow_exact_matches=exact, tolerance=tol)
 
         def f_pd():
@@ -427,6 +461,35 @@ def run_case(case, ctx):
 
         def f_dd():
             return dd.merge_asof(dfh.build(L, lp), dfh.build(R, rp), **kw)
+
+    elif kind == "mchain":
+        _, s1, side, on2, how, lp, rp = case
+        L, R, C = mchain_frames(ctx.seed)
+        op, detail_op = "mchain", f"{s1}-{side}-{on2}"
+        check_index = False
+        op1, k1 = s1.split(":")
+        K1 = k1.split("+") if "+" in k1 else k1
+        K2 = on2.split("+") if "+" in on2 else on2
+        C = C[(K1 if isinstance(K1, list) else [K1]) + ["c"]]  # only the step-1 keys and the payload
+
+        def f_pd():
+            l, r = L, R
+            if op1 == "merge":  # how='left' against unique keys: keeps every row, adds column c
+                if side == "left":
+                    l = l.merge(C, on=K1, how="left")
+                else:
+                    r = r.merge(C, on=K1, how="left")
+            return merge_reference(l, r, {"on": K2}, how)
+
+        def f_dd():
+            l, r = dfh.build(L, lp), dfh.build(R, rp)
+            x = l if side == "left" else r
+            if op1 == "merge":
+                x = dd.merge(x, dfh.build(C, (4, 4)), on=K1, how="left", broadcast=False, shuffle_method="tasks")
+            else:
+                x = x.shuffle(K1, shuffle_method="tasks")
+            l, r = (x, r) if side == "left" else (l, x)
+            return dd.merge(l, r, how=how, on=K2, broadcast=False, shuffle_method="tasks")
 
     elif kind == "concat":
         _, var, layout, axis, join, inter, lp, rp = case
